@@ -15,6 +15,8 @@ EXPLANATION = B.MIXED + (
 def run(rep, tier):
     kernels.oracle_self_check(rep)
     kernels.run_generators(rep, ["apply_operator_matrix", "trace_out_matrix"])
+    from vf import lemmas
+    lemmas.lemma_obligations(rep, ["complete_set_preserves_trace"])
     B.run_b(rep, morecells.povm_cells(tier, common.seed()), ["C09"], explore=True, tier=tier)
     extra = [c for c in morecells.three_space_cells(tier, common.seed()) + morecells.stale_cache_cells(tier, common.seed()) if c["action"]["kind"] == "povm"]
     B.run_b(rep, extra, ["C09"], explore=True, tier=tier)
